@@ -119,6 +119,8 @@ Ltac py_opt_norm :=
   | rewrite if_same | rewrite if_negb
   | rewrite Qsum_const_one | rewrite Qnat_eqb0' | rewrite Qltb_0_Qnat | rewrite Nat_ltb_0_eqb
   | rewrite py_min_list_qmin | rewrite py_max_list_qmax
+  | rewrite existsb_flat_map | rewrite forallb_flat_map | rewrite Qsum_flat_map | rewrite forallb_filter | rewrite existsb_filter
+  | rewrite fold_sum | rewrite fold_sum_l | rewrite fold_sum_if | rewrite Qplus_0_l
   | rewrite negb_involutive | rewrite app_nil_l | rewrite orb_false_l | rewrite orb_false_r | rewrite existsb_map | rewrite forallb_map ];
   cbv beta iota; cbn [fst snd is_some negb].
 
@@ -192,20 +194,20 @@ Proof. intros; repeat autounfold with pygen; unfold Cohesive.is_large_enough; py
 
 Lemma gen_is_cohesive_approval_ok : forall I (P : list ballot) T S,
   gen_is_cohesive_approval I P T S = Cohesive.is_cohesive_approval I ballot P inb T S.
-Proof. py_open_jr. py_jr. Qed.
+Proof. py_open_jr. timeout 60 py_jr. Qed.
 
 Lemma gen_is_cohesive_cardinal_ok : forall I (P : list ballot) T S alpha,
   gen_is_cohesive_cardinal I P T S alpha = Cohesive.is_cohesive_cardinal I ballot P bget T S alpha.
-Proof. py_open_jr. py_jr. Qed.
+Proof. py_open_jr. timeout 60 py_jr. Qed.
 
 Lemma gen_cohesive_groups_ok : forall I (P : list ballot),
   gen_cohesive_groups I P = Cohesive.cohesive_groups_app I ballot P inb (all_projects I).
-Proof. py_open_jr. py_jr. Qed.
+Proof. py_open_jr. timeout 60 py_jr. Qed.
 
 (* cardinal profiles: alpha_min = {p: min(b[p] for b in group) for p in project_set} *)
 Lemma gen_cohesive_groups_cardinal_ok : forall I (P : list ballot),
   gen_cohesive_groups_cardinal I P = Cohesive.cohesive_groups_card I ballot P bget (all_projects I).
-Proof. py_open_jr. py_jr. Qed.
+Proof. py_open_jr. timeout 60 py_jr. Qed.
 
 (* the checkers are opened, cohesive_groups is replaced by the model's (proved above) and stays folded *)
 Ltac py_open_checker :=
@@ -231,38 +233,38 @@ Ltac py_open_checker :=
 Lemma gen_is_strong_EJR_approval_ok : forall I (P : list ballot) (sc : py_satclass_l),
   (forall b X, sc I P b X == Qsum (map (fun p => sc I P b [p]) X)) -> forall W,
   gen_is_strong_EJR_approval I P sc W = Cohesive.is_strong_EJR_approval I ballot P inb (fun b p => sc I P b [p]) (all_projects I) W.
-Proof. intros I P sc Hadd. py_open_checker. py_jr. Qed.
+Proof. intros I P sc Hadd. py_open_checker. timeout 60 py_jr. Qed.
 
 Lemma gen_is_EJR_approval_ok : forall I (P : list ballot) (sc : py_satclass_l),
   (forall b X, sc I P b X == Qsum (map (fun p => sc I P b [p]) X)) -> forall W,
   gen_is_EJR_approval I P sc W = Cohesive.is_EJR_approval I ballot P inb (fun b p => sc I P b [p]) (all_projects I) JR.Plain W.
-Proof. intros I P sc Hadd. py_open_checker. py_jr. Qed.
+Proof. intros I P sc Hadd. py_open_checker. timeout 60 py_jr. Qed.
 Lemma gen_is_EJR_any_approval_ok : forall I (P : list ballot) (sc : py_satclass_l),
   (forall b X, sc I P b X == Qsum (map (fun p => sc I P b [p]) X)) -> forall W,
   gen_is_EJR_any_approval I P sc W = Cohesive.is_EJR_approval I ballot P inb (fun b p => sc I P b [p]) (all_projects I) JR.UpToAny W.
-Proof. intros I P sc Hadd. py_open_checker. py_jr. Qed.
+Proof. intros I P sc Hadd. py_open_checker. timeout 60 py_jr. Qed.
 Lemma gen_is_EJR_one_approval_ok : forall I (P : list ballot) (sc : py_satclass_l),
   (forall b X, sc I P b X == Qsum (map (fun p => sc I P b [p]) X)) -> forall W,
   gen_is_EJR_one_approval I P sc W = Cohesive.is_EJR_approval I ballot P inb (fun b p => sc I P b [p]) (all_projects I) JR.UpToOne W.
-Proof. intros I P sc Hadd. py_open_checker. py_jr. Qed.
+Proof. intros I P sc Hadd. py_open_checker. timeout 60 py_jr. Qed.
 
 Lemma gen_is_PJR_approval_ok : forall I (P : list ballot) (sc : py_satclass_l),
   (forall b X, sc I P b X == Qsum (map (fun p => sc I P b [p]) X)) -> forall W,
   gen_is_PJR_approval I P sc W = Cohesive.is_PJR_approval I ballot P inb (fun p => sc I P (py_full_ballot I) [p]) (all_projects I) JR.Plain W.
-Proof. intros I P sc Hadd. py_open_checker. py_jr. Qed.
+Proof. intros I P sc Hadd. py_open_checker. timeout 60 py_jr. Qed.
 Lemma gen_is_PJR_any_approval_ok : forall I (P : list ballot) (sc : py_satclass_l),
   (forall b X, sc I P b X == Qsum (map (fun p => sc I P b [p]) X)) -> forall W,
   gen_is_PJR_any_approval I P sc W = Cohesive.is_PJR_approval I ballot P inb (fun p => sc I P (py_full_ballot I) [p]) (all_projects I) JR.UpToAny W.
-Proof. intros I P sc Hadd. py_open_checker. py_jr. Qed.
+Proof. intros I P sc Hadd. py_open_checker. timeout 60 py_jr. Qed.
 Lemma gen_is_PJR_one_approval_ok : forall I (P : list ballot) (sc : py_satclass_l),
   (forall b X, sc I P b X == Qsum (map (fun p => sc I P b [p]) X)) -> forall W,
   gen_is_PJR_one_approval I P sc W = Cohesive.is_PJR_approval I ballot P inb (fun p => sc I P (py_full_ballot I) [p]) (all_projects I) JR.UpToOne W.
-Proof. intros I P sc Hadd. py_open_checker. py_jr. Qed.
+Proof. intros I P sc Hadd. py_open_checker. timeout 60 py_jr. Qed.
 
 Lemma gen_is_in_core_ok : forall I (P : list ballot) (sc : py_satclass_l),
   (forall b X, sc I P b X == Qsum (map (fun p => sc I P b [p]) X)) -> forall W,
   gen_is_in_core I P sc W = Cohesive.is_in_core I ballot P (fun b p => sc I P b [p]) (all_projects I) JR.Plain W.
-Proof. intros I P sc Hadd. py_open_checker. py_jr. Qed.
+Proof. intros I P sc Hadd. py_open_checker. timeout 60 py_jr. Qed.
 
 (* ====================================================================================================== *)
 (* justifiedrepresentation.py, cardinal ballots                                                             *)
@@ -271,21 +273,21 @@ Proof. intros I P sc Hadd. py_open_checker. py_jr. Qed.
 Lemma gen_is_strong_EJR_cardinal_ok : forall I (P : list ballot) (sc : py_satclass_l),
   (forall b X, sc I P b X == Qsum (map (fun p => sc I P b [p]) X)) -> forall W,
   gen_is_strong_EJR_cardinal I P W sc = Cohesive.is_strong_EJR_cardinal I ballot P bget (fun b p => sc I P b [p]) (all_projects I) W.
-Proof. intros I P sc Hadd. py_open_checker. py_jr. Qed.
+Proof. intros I P sc Hadd. py_open_checker. timeout 60 py_jr. Qed.
 
 Lemma gen_is_EJR_cardinal_ok : forall I (P : list ballot) (sc : py_satclass_l),
   (forall b X, sc I P b X == Qsum (map (fun p => sc I P b [p]) X)) -> forall W,
   gen_is_EJR_cardinal I P W sc = Cohesive.is_EJR_cardinal I ballot P bget (fun b p => sc I P b [p]) (all_projects I) JR.Plain W.
-Proof. intros I P sc Hadd. py_open_checker. py_jr. Qed.
+Proof. intros I P sc Hadd. py_open_checker. timeout 60 py_jr. Qed.
 (* the two relaxed variants use the default sat_class of is_EJR_cardinal: Additive_Cardinal_Sat (a parameter here) *)
 Lemma gen_is_EJR_any_cardinal_ok : forall I (P : list ballot) (sc : py_satclass_l),
   (forall b X, sc I P b X == Qsum (map (fun p => sc I P b [p]) X)) -> forall W,
   gen_is_EJR_any_cardinal sc I P W = Cohesive.is_EJR_cardinal I ballot P bget (fun b p => sc I P b [p]) (all_projects I) JR.UpToAny W.
-Proof. intros I P sc Hadd. py_open_checker. py_jr. Qed.
+Proof. intros I P sc Hadd. py_open_checker. timeout 60 py_jr. Qed.
 Lemma gen_is_EJR_one_cardinal_ok : forall I (P : list ballot) (sc : py_satclass_l),
   (forall b X, sc I P b X == Qsum (map (fun p => sc I P b [p]) X)) -> forall W,
   gen_is_EJR_one_cardinal sc I P W = Cohesive.is_EJR_cardinal I ballot P bget (fun b p => sc I P b [p]) (all_projects I) JR.UpToOne W.
-Proof. intros I P sc Hadd. py_open_checker. py_jr. Qed.
+Proof. intros I P sc Hadd. py_open_checker. timeout 60 py_jr. Qed.
 
 Lemma gen_is_EJR_cardinal_default_class :
   gen_is_EJR_any_cardinal_classes = ["Additive_Cardinal_Sat"%string] /\
@@ -294,14 +296,26 @@ Proof. split; reflexivity. Qed.
 
 Lemma gen_is_PJR_cardinal_ok : forall I (P : list ballot) W,
   gen_is_PJR_cardinal I P W = Cohesive.is_PJR_cardinal I ballot P bget (all_projects I) JR.Plain W.
-Proof. py_open_checker. py_jr. Qed.
+Proof. py_open_checker. timeout 60 py_jr. Qed.
 Lemma gen_is_PJR_any_cardinal_ok : forall I (P : list ballot) W,
   gen_is_PJR_any_cardinal I P W = Cohesive.is_PJR_cardinal I ballot P bget (all_projects I) JR.UpToAny W.
-Proof. py_open_checker. py_jr. Qed.
+Proof. py_open_checker. timeout 60 py_jr. Qed.
 Lemma gen_is_PJR_one_cardinal_ok : forall I (P : list ballot) W,
   gen_is_PJR_one_cardinal I P W = Cohesive.is_PJR_cardinal I ballot P bget (all_projects I) JR.UpToOne W.
-Proof. py_open_checker. py_jr. Qed.
+Proof. py_open_checker. timeout 60 py_jr. Qed.
 
 (* nothing of the two files fell out of the translated fragment *)
 Lemma gen_jr_all_translated : gen_untranslated_jr = [].
 Proof. reflexivity. Qed.
+
+(* the approval checkers contain no division and no min/max of a possibly empty sequence: they cannot raise
+   ZeroDivisionError / ValueError (the cardinal ones take min(b[p] for b in group) of groups that cohesive_groups only
+   returns non-empty; that invariant is not proved here, their _safe definitions are generated but not stated) *)
+Lemma gen_approval_checkers_safe : forall I (P : list ballot) sc W T S gs nv c B,
+  gen_is_large_enough_safe gs nv c B = true /\ gen_is_cohesive_approval_safe I P T S = true /\
+  gen_cohesive_groups_safe I P = true /\ gen_is_in_core_safe I P sc W = true /\
+  gen_is_strong_EJR_approval_safe I P sc W = true /\ gen_is_EJR_approval_safe I P sc W = true /\
+  gen_is_EJR_any_approval_safe I P sc W = true /\ gen_is_EJR_one_approval_safe I P sc W = true /\
+  gen_is_PJR_approval_safe I P sc W = true /\ gen_is_PJR_any_approval_safe I P sc W = true /\
+  gen_is_PJR_one_approval_safe I P sc W = true.
+Proof. intros. repeat split; reflexivity. Qed.
